@@ -411,6 +411,16 @@ Definition rename_spec (i i' : impl_result) (back : list (string * string))
       | _, _ => [1%nat]
       end.
 
+(* a renaming ONTO the iterator symbol of a custom sequence further down: the renamed program may be refused (the code rejects
+   substitutions that would touch an iterator); it must not compile to other numbers *)
+Definition check_rename_case_refusable (r' : routine) (i i' : impl_result) (back : list (string * string))
+           (inexact : bool) (pts : list (list (string * Q))) : list nat * list nat :=
+  (tie_compile r' i' inexact pts,
+   match i' with
+   | IErr cls => if String.eqb cls "BartiqCompilationError" then [] else [1%nat]
+   | _ => rename_spec i i' back inexact pts
+   end).
+
 Definition check_rename_case (r' : routine) (i i' : impl_result) (back : list (string * string))
            (inexact : bool) (pts : list (list (string * Q))) : list nat * list nat :=
   (tie_compile r' i' inexact pts, rename_spec i i' back inexact pts).
